@@ -113,6 +113,8 @@ func genC12(seed uint64, idx int, tier string) *Plan {
 	p := &MutatePlan{Zone: z}
 	p.Zone.Faults = nil
 	p.Zone.Poison = nil
+	p.Zone.OneHop = false
+
 	if core.Chance(r, 1, 3) {
 		g := &zoneGen{r: r, ttls: []uint32{60}}
 		g.poison()
@@ -148,6 +150,19 @@ func genC12(seed uint64, idx int, tier string) *Plan {
 		}
 	}
 	p.Zone = g.z
+	// (the base response of a mutation plan must be a valid message: names that
+	// no message can carry are C14's business)
+	var keep []simdoh.RR
+	for _, rr := range p.Zone.RRs {
+		if len(simdoh.NameProblems(rr.Name)) > 0 {
+			continue
+		}
+		if rr.Target != "" && len(simdoh.NameProblems(rr.Target)) > 0 {
+			rr.Target = "t1.test"
+		}
+		keep = append(keep, rr)
+	}
+	p.Zone.RRs = keep
 	p.QType = uint16(core.Pick(r, []int{simdoh.TypeHTTPS, simdoh.TypeHTTPS, simdoh.TypeA, simdoh.TypeAAAA}))
 	p.Extra = core.Chance(r, 2, 3)
 	p.NoCompr = core.Chance(r, 1, 8)
